@@ -42,6 +42,9 @@ Definition status_eqb (a b : status) : bool :=
   | _, _ => false
   end.
 
+(* [agree] compares a retry's output with the model's IN ORDER (the model follows the code's order);
+   the judge ([hist_ok] -> [judge_step]) compares it with the expected deposits as a multiset only: the
+   order inside the re-emitted batch is not part of the property *)
 Definition out_eqb (a b : out) : bool :=
   match a, b with
   | ORetry x, ORetry y => deps_eqb x y
